@@ -459,11 +459,16 @@ func (w *world) end(s int) {
 		return
 	}
 	w.mu.Lock()
+	was := w.live[s]
 	w.live[s] = map[string]pinfo{}
 	w.ended[s] = true
 	delete(w.peers, s)
 	w.sig = append(w.sig, "end")
 	w.mu.Unlock()
+	// the server closes the session's proxies one after the other: one close step per proxy inside the drop's interval
+	for n := range was {
+		w.record(s, opIn{Kind: "close", Sess: s, Name: n}, opOut{OK: true}, call, ret)
+	}
 	w.record(s, opIn{Kind: "end", Sess: s}, opOut{OK: true}, call, ret)
 	run.Count("session_drops", 1)
 }
